@@ -451,9 +451,10 @@ func init() {
 			"over a boundary-rich literal universe per rule (range edges ±1, first/last second of calendar periods, mid-period, outside the configured span; date-only, datetime and unix spellings) for 14 rule configurations, " +
 			"rendered as SELECT/UPDATE/DELETE with plain, table-qualified, aliased and schema-qualified spellings; the Lean oracle checks every row value of the universe (placed by the real FindTableIndex) on which the condition may be TRUE; " +
 			"non-trivial = statement accepted and routed",
-		Generate: genC01,
-		Exec:     execC01,
-		Trivial:  func(in core.Sexp, out string) bool { return !strings.HasPrefix(out, "(ok") },
+		Generate:   genC01,
+		Exec:       execC01,
+		Trivial:    func(in core.Sexp, out string) bool { return !strings.HasPrefix(out, "(ok") },
+		ShrinkKeep: []string{"meta", "lit"},
 		Assumptions: []string{
 			"TZ=UTC for the harness process (unix-timestamp keys are interpreted in the proxy's time zone)",
 			"rows are stored where FindTableIndex places their key (C03/C09); the placement functions themselves are checked under C08/C09",
